@@ -159,6 +159,10 @@ impl HttpClient {
         &self,
         uri: &uri::Https,
     ) -> Result<HttpResponse, reqwest::Error> {
+        #[cfg(routinator_verif)]
+        if let Some(res) = verif::answer(uri, None, None) {
+            return res
+        }
         self._response(self.client().get(uri.as_str()))
     }
 
@@ -168,6 +172,10 @@ impl HttpClient {
         etag: Option<&Bytes>,
         last_modified: Option<DateTime<Utc>>,
     ) -> Result<HttpResponse, reqwest::Error> {
+        #[cfg(routinator_verif)]
+        if let Some(res) = verif::answer(uri, etag, last_modified) {
+            return res
+        }
         let mut request = self.client().get(uri.as_str());
         if let Some(etag) = etag {
             request = request.header(
@@ -219,6 +227,83 @@ impl HttpClient {
         else {
             attempt.stop()
         }
+    }
+}
+
+
+//------------ Verification transport ---------------------------------------
+
+/// The fake transport for verification.
+#[cfg(routinator_verif)]
+mod verif {
+    use std::pin::Pin;
+    use std::task::{Context, Poll};
+    use bytes::Bytes;
+    use chrono::{DateTime, Utc};
+    use hyper::body::{Body, Frame, SizeHint};
+    use rpki::uri;
+    use crate::verif::HttpAnswer;
+    use super::HttpResponse;
+
+    /// A body that doesn’t know its length in advance.
+    struct UnknownLength(Option<Bytes>);
+
+    impl Body for UnknownLength {
+        type Data = Bytes;
+        type Error = std::convert::Infallible;
+
+        fn poll_frame(
+            mut self: Pin<&mut Self>, _cx: &mut Context<'_>
+        ) -> Poll<Option<Result<Frame<Self::Data>, Self::Error>>> {
+            Poll::Ready(self.0.take().map(|data| Ok(Frame::data(data))))
+        }
+
+        fn size_hint(&self) -> SizeHint {
+            SizeHint::new()
+        }
+    }
+
+    /// Asks the installed handler for an answer to a request.
+    ///
+    /// Returns `None` if the real request should be made.
+    pub fn answer(
+        uri: &uri::Https,
+        etag: Option<&Bytes>,
+        last_modified: Option<DateTime<Utc>>,
+    ) -> Option<Result<HttpResponse, reqwest::Error>> {
+        let answer = crate::verif::handler()?.http(
+            uri.as_str(),
+            etag.map(|etag| etag.as_ref()),
+            last_modified.map(|time| time.timestamp()),
+        )?;
+        let response = match answer {
+            HttpAnswer::Response(response) => response,
+            HttpAnswer::Unreachable => {
+                // Produce a genuine transport error.
+                return Some(
+                    reqwest::blocking::Client::new()
+                        .get("http://127.0.0.1:1/").send()
+                        .and_then(|response| response.error_for_status())
+                        .map(HttpResponse::create)
+                )
+            }
+        };
+        let mut builder = hyper::Response::builder().status(response.status);
+        for (name, value) in &response.headers {
+            builder = builder.header(name.as_str(), value.as_str());
+        }
+        let body = if response.known_length {
+            reqwest::Body::from(response.body)
+        }
+        else {
+            reqwest::Body::wrap(
+                UnknownLength(Some(Bytes::from(response.body)))
+            )
+        };
+        let response = reqwest::blocking::Response::from(
+            builder.body(body).expect("invalid verification response")
+        );
+        Some(response.error_for_status().map(HttpResponse::create))
     }
 }
 
